@@ -1,9 +1,10 @@
 """C15: legacy IR optimiser and assembly peephole optimiser never change results."""
 import re
+import time
 
 from vlib import coqrun
 from vlib import c15_asm
-from vlib.c15_evm import CONTEXTS, Differ
+from vlib.c15_evm import BRANCH_CONTEXTS, CONTEXTS, Differ
 from vlib.c15_gen import gen_utils
 from vlib.c15_ir import (BOPS_ARITH, HALF, PCS, W, coq_of, ir_of, lit_boundary, show_binop_result, show_shape)
 from vlib.common import COQ
@@ -28,6 +29,16 @@ META = {
 IMPORTS = ("From Verif Require Import Base.Word256 Base.PyInt C15.Syntax C15.GenUtils C15.Optimizer.\n"
            "Open Scope string_scope.\n")
 STRS = re.compile(r'"([^"]*)"')
+REPORTED = set()
+
+
+def report_once(ctx, key, name, detail):
+    """known-defect style reporting: one failing-input per stable key per run"""
+    if key in REPORTED:
+        return
+    REPORTED.add(key)
+    ctx.violation("failing-input", name, detail, key=key)
+
 
 EXP_SMALL = [0, 1, 2, 3, 8, 255, 256, 257]
 EXP_BIG = [HALF, W - 1, -1]
@@ -120,6 +131,7 @@ def evm_grid(ctx, differ):
     lits = lit_boundary()
     cxl = [0, 1, W - 1, -1, 2, HALF, -HALF]
     n, found = 0, 0
+    reported = set()
     for op in BOPS_ARITH + ["shl", "shr", "sar"]:
         x, y, c1, c2 = ("var", "x"), ("var", "y"), ("cx", 1), ("cx", 2)
         shapes = [("bin", op, x, ("lit", c)) for c in lits] + [("bin", op, ("lit", c), x) for c in lits]
@@ -128,12 +140,22 @@ def evm_grid(ctx, differ):
         if ctx.tier != "thorough":
             keep = set(rnd.sample(range(len(shapes)), len(shapes) // 2))
         for i, s in enumerate(shapes):
-            for cn in CONTEXTS:
-                if ctx.tier != "thorough" and i not in keep and cn not in ("value", "if"):
+            for cn in CONTEXTS + BRANCH_CONTEXTS:
+                if ctx.tier != "thorough" and i not in keep and cn not in ("value", "if") and \
+                        not (op == "or" and cn in BRANCH_CONTEXTS):
                     continue
                 d = differ.run_shape(s, cn, rnd, max_inputs=16 if ctx.tier != "thorough" else 40)
                 n += 1
-                if d is not None and found < 3:
+                if d is None:
+                    continue
+                if op == "or" and cn in BRANCH_CONTEXTS:
+                    # known defect: the truthy-only rule (or x c) -> 1 fires on the VALUE of an if branch
+                    d["note"] = ("_optimize_binop: is_truthy holds for every child of `if`, also the valued branches; "
+                                 "source replay: `return (msg.value | 2) if c else 0` (legacy, optimize=gas)")
+                    report_once(ctx, "truthy-or-under-if-branch",
+                                "truthy-context rule (or x c)->1 applied to the value of an if branch", d)
+                    continue
+                if found < 3:
                     found += 1
                     ctx.violation("failing-input", "optimised IR behaves differently from unoptimised IR", d,
                                   key=f"iropt:{show_shape(s)}:{cn}")
@@ -168,6 +190,69 @@ def evm_grid(ctx, differ):
     ctx.corr["evm_grid_programs"] = n
     ctx.corr["evm_fold_programs"] = nl
     return found
+
+
+def tree_tie(ctx, differ):
+    """exact output equality: real optimizer.optimize vs the Coq model OptTree.optimize on seeded random trees
+    (depth <= 5) over the vocabulary _optimize rewrites, under cancun and pre-cancun rules."""
+    from vlib import c15_tree
+    from vyper.codegen.ir_node import IRnode
+    from vyper.compiler.settings import Settings, anchor_settings
+    rnd = ctx.rng("trees")
+    want = 700 if ctx.tier != "thorough" else 6000
+    cases = []
+    while len(cases) < want:
+        t = c15_tree.gen_tree(rnd, rnd.choice([2, 3, 4, 5]))
+        ev = rnd.choice(["cancun", "shanghai"])
+        try:
+            with anchor_settings(Settings(evm_version=ev)):
+                node = IRnode.from_list(t)
+                cases.append((t, ev, c15_tree.coq_of_node(node), c15_tree.show_node(node)))
+        except Exception:  # noqa: generator produced something the IRnode constructor rejects
+            continue
+    imports = ("From Verif Require Import Base.PyInt C15.Syntax C15.GenUtils C15.Optimizer C15.OptTree.\n"
+               "Open Scope string_scope.\n")
+    exprs = [f"show_opt (optimize {'true' if ev == 'cancun' else 'false'} {c})" for (_t, ev, c, _s) in cases]
+    outs = coqrun.eval_cases(imports, exprs, "c15tree", shard=(len(exprs) + 2) // 3, timeout=220)
+    changed, merged, outcomes, mism = 0, 0, {}, []
+    for (t, ev, _c, s0), o in zip(cases, outs):
+        m = o.strip('"')
+        r = c15_tree.real_optimize(t, ev)
+        if r != s0:
+            changed += 1
+        k = r if r in ("STATIC", "ASSERT") or r.startswith("EXC") else "tree"
+        outcomes[k] = outcomes.get(k, 0) + 1
+        for w in ("calldatacopy", "mcopy", "dloadbytes"):
+            if r.count(w) > s0.count(w):
+                merged += 1
+                break
+        if r != m:
+            mism.append((t, ev, s0, r, m))
+    ctx.corr["tree_cases"] = len(cases)
+    ctx.corr["tree_cases_rewritten"] = changed
+    ctx.corr["tree_cases_with_merge"] = merged
+    ctx.corr["tree_outcomes"] = outcomes
+    found = False
+    for t, ev, s0, r, m in mism[:6]:
+        # Search: execute the very tree with and without the optimiser (wrapped so that it leaves a result)
+        prog = ["with", "x", ["calldataload", 0], ["with", "y", ["calldataload", 32],
+                ["seq", t if IRnode.from_list(t).valency == 0 else ["mstore", 0, t], ["return", 0, 256]]]]
+        ins = [(x, y, 0, 0) for x in (0, 1, 5, W - 1, HALF) for y in (0, 1, W - 1)]
+        try:
+            d = differ.run_program(prog, ins)
+        except Exception:  # noqa: e.g. unbound variable names in the random tree
+            d = None
+        if d is not None:
+            found = True
+            d["tree"] = s0
+            ctx.violation("failing-input", "optimised tree behaves differently from the unoptimised tree", d,
+                          key="tree:" + s0[:80])
+            break
+    if mism and not found:
+        t, ev, s0, r, m = mism[0]
+        ctx.violation("correspondence-broken", "OptTree.optimize model != real optimizer.optimize (exact output)",
+                      {"tree": s0, "evm": ev, "real": r, "model": m, "n_mismatches": len(mism)})
+    return len(cases), found
 
 
 def peephole_tie(ctx):
@@ -242,7 +327,11 @@ def glue_corpus(ctx):
             except Exception as e:  # noqa
                 d = {"what": "compile-exception", "error": f"{type(e).__name__}: {str(e)[:300]}"}
             calls += len(plan)
-            if d is not None and found < 3:
+            if d is not None and c["name"] == "c15_ifexp_or":
+                d.update({"contract": c["name"], "source": c["src"], "config_b": f"legacy-{lvl}-{evm}"})
+                report_once(ctx, "truthy-or-under-if-branch",
+                            "truthy-context rule (or x c)->1 applied to the value of an if branch", d)
+            elif d is not None and found < 3:
                 found += 1
                 if "call" in d:
                     d["call_detail"] = {k: (v.hex() if isinstance(v, bytes) else v) for k, v in plan[d["call"]].items()}
@@ -256,6 +345,7 @@ def glue_corpus(ctx):
 
 
 def run(ctx):
+    REPORTED.clear()
     differ = Differ("cancun")
     found = 0
     # ---- regenerate + prove
@@ -264,25 +354,40 @@ def run(ctx):
         (COQ / "C15" / "GenUtils.v").write_text(gen_utils())
     except Unsupported as e:
         gen_err = str(e)
+    T = {}
+    t0 = time.time()
     b = {"ok": False}
-    files = ["C15/GenUtils.v", "C15/Optimizer.v", "C15/FoldSound.v", "C15/PropsFold.v", "C15/OptSound.v",
-             "C15/PropsOpt.v", "C15/Peephole.v", "C15/PeepholeSound.v", "C15/PropsPeephole.v"]
+    files = ["C15/GenUtils.v", "C15/Optimizer.v", "C15/OptTree.v", "C15/FoldSound.v", "C15/PropsFold.v", "C15/OptSound.v",
+             "C15/OptTreeSound.v", "C15/PropsOpt.v", "C15/Peephole.v", "C15/PeepholeSound.v", "C15/PropsPeephole.v"]
     if gen_err is None:
         b = ctx.coq_build(files)
-    model_ok = gen_err is None and (COQ / "C15" / "Optimizer.vo").exists() and \
-        (b["ok"] or not any(x in b.get("file", "") for x in ("GenUtils", "Optimizer.v")))
+    model_ok = gen_err is None and (COQ / "C15" / "OptTree.vo").exists() and \
+        (b["ok"] or not any(x in b.get("file", "") for x in ("GenUtils", "Optimizer.v", "OptTree.v")))
+    T["coq_build"] = round(time.time() - t0, 1); t0 = time.time()
     # ---- observation (always): EVM differential
     found += evm_grid(ctx, differ)
+    T["evm_grid"] = round(time.time() - t0, 1); t0 = time.time()
     gf, gcalls = glue_corpus(ctx)
     found += gf
+    T["glue"] = round(time.time() - t0, 1); t0 = time.time()
     # ---- tie
     n = gcalls
     if model_ok:
-        n, f = binop_grid_tie(ctx, differ)
+        n2, f = binop_grid_tie(ctx, differ)
+        n += n2
         found += int(f)
+    T["binop_tie"] = round(time.time() - t0, 1); t0 = time.time()
+    if model_ok:
+        n3, f = tree_tie(ctx, differ)
+        n += n3
+        found += int(f)
+    T["tree_tie"] = round(time.time() - t0, 1); t0 = time.time()
     # ---- peephole tie (the Peephole model does not depend on the generated files)
     if (COQ / "C15" / "Peephole.vo").exists() and "Peephole.v" not in b.get("file", ""):
         n += peephole_tie(ctx)
+    T["peephole"] = round(time.time() - t0, 1)
+    ctx.corr["phase_seconds"] = T
+    ctx.log("phase seconds", T)
     if gen_err is not None and not found:
         ctx.violation("translator-rejected", "cannot regenerate C15/GenUtils.v: " + gen_err, {"error": gen_err})
     elif gen_err is None and not b["ok"] and not found:
